@@ -33,7 +33,7 @@ def C07 : List (String × String) := [("BaseProposalSelector.getNodes", "434f9eb
   ("BaseProposalSelector.selectFromProposer", "0d30a369ef3a11ec"),
   ("BlockBasedProposerSelector.Select", "52eecbad2e40d1ff")]
 
-def C22 : List (String × String) := [("TempPool.OperationHashes", "2eecdd1baddcea22"),
+def C22 : List (String × String) := [("TempPool.OperationHashes", "4a6439834d695878"),
   ("TempPool.SetOperation", "c6332c9beed9b868"),
   ("TempPool.setRemoveNewOperations", "c11623aa3d6a432c"),
   ("TempPool.removeNewOperationOrdereds", "7a4d3c4a0b0e082a"),
@@ -42,9 +42,9 @@ def C22 : List (String × String) := [("TempPool.OperationHashes", "2eecdd1baddc
   ("leveldbNewOperationKeysKey", "67b7fa82cfa3682d"),
   ("leveldbNewOperationKey", "279e16b72adab0e3")]
 
-def C23 : List (String × String) := [("TempPool.SuffrageExpelOperation", "3fa2092605c65cdd"),
+def C23 : List (String × String) := [("TempPool.SuffrageExpelOperation", "f266bb9c6770f166"),
   ("TempPool.SetSuffrageExpelOperation", "f099979763cf5453"),
-  ("TempPool.TraverseSuffrageExpelOperations", "a5c02dff48eda335"),
+  ("TempPool.TraverseSuffrageExpelOperations", "1cfbeda07acde56a"),
   ("TempPool.RemoveSuffrageExpelOperationsByFact", "72a64edcc68929bd"),
   ("TempPool.RemoveSuffrageExpelOperationsByHeight", "2b37af6f10be2ba2"),
   ("newSuffrageExpelOperationKey", "df0d99744e9813ff"),
